@@ -12,6 +12,8 @@ use std::{
 
 use serde::{Deserialize, Serialize};
 
+#[cfg(feature = "trustfall_verif")]
+pub use self::indexed::verif_get_output_type;
 pub use self::indexed::{EdgeKind, IndexedQuery, InvalidIRQueryError, Output};
 pub use self::types::{NamedTypedValue, Type};
 pub use self::value::{FieldValue, TransparentValue};
